@@ -27,18 +27,9 @@ theorem rbh_ok (inp : ByteArray) (pos : Nat) (hdr : BlockHeader) (h : readBlockH
   rw [key]
   omega
 
-theorem recLoop_mono (recs : Array (Nat × Nat)) (inp : ByteArray) : ∀ (n p i p' : Nat) (st : Status),
-    readTail.recLoop recs inp n p i = some (p', st) → p ≤ p' := by
-  intro n
-  induction n with
-  | zero => intro p i p' st h; simp only [readTail.recLoop, Option.some.injEq, Prod.mk.injEq] at h; omega
-  | succ n ih =>
-    intro p i p' st h
-    rw [readTail.recLoop] at h
-    repeat' (split at h)
-    all_goals (first | (simp only [Option.some.injEq, Prod.mk.injEq] at h; omega) | skip)
-    have := ih _ _ _ _ h
-    omega
+theorem recLoop_mono (inp : ByteArray) : ∀ (n p : Nat) (acc : Array (Nat × Nat)) (p' : Nat) (st : Status)
+    (parsed : Array (Nat × Nat)), readTail.recLoop inp n p acc = some (p', st, parsed) → p ≤ p' :=
+  Xz.recLoop_mono inp
 
 theorem ite_ind {α : Type} {P : α → Prop} {c : Prop} [Decidable c] {a b : α} (ha : P a) (hb : P b) :
     P (if c then a else b) := by
@@ -57,10 +48,10 @@ theorem readTail_props (flags : Nat) (recs : Array (Nat × Nat)) (r : RdState) :
     by_cases c0 : cnt ≠ recs.size
     · rw [if_pos c0]; exact ⟨rfl, rfl, fun h => by cases h⟩
     rw [if_neg c0]
-    cases hrl : readTail.recLoop recs r.inp cnt (r.pos + 1 + k) 0 with
+    cases hrl : readTail.recLoop r.inp cnt (r.pos + 1 + k) #[] with
     | none => exact ⟨rfl, rfl, fun h => by cases h⟩
     | some x =>
-      obtain ⟨p1, st⟩ := x
+      obtain ⟨p1, st, parsed⟩ := x
       have hm := recLoop_mono _ _ _ _ _ _ _ hrl
       cases st with
       | unexpectedEOF => exact ⟨rfl, rfl, fun h => by cases h⟩
